@@ -181,9 +181,6 @@ func (s LockSet) clone() LockSet {
 func (s LockSet) String() string {
 	var ks []string
 	for k, v := range s {
-		if strings.HasPrefix(k, "~defer:") {
-			continue
-		}
 		ks = append(ks, k+":"+string(v))
 	}
 	sort.Strings(ks)
@@ -232,14 +229,23 @@ type LockAnalysis struct {
 	// Imbalance records functions whose returns disagree on the lock-set.
 	Imbalance map[*ssa.Function]string
 	inPkg     map[*ssa.Function]bool
+	// deferAt: lock-set holding when the deferred call d starts running at the
+	// function exit rd (after the calls deferred later than d have run).
+	deferAt map[deferKey]LockSet
 	// dead: unexported functions with no caller at all (never executed; not checked)
 	dead map[*ssa.Function]bool
+}
+
+type deferKey struct {
+	rd *ssa.RunDefers
+	d  *ssa.Defer
 }
 
 // NewLockAnalysis analyses the functions of the given packages together.
 func NewLockAnalysis(p *Prog, rels ...string) *LockAnalysis {
 	la := &LockAnalysis{P: p, entry: map[*ssa.Function]LockSet{}, at: map[ssa.Instruction]LockSet{},
-		sum: map[*ssa.Function]*fnSummary{}, Imbalance: map[*ssa.Function]string{}, inPkg: map[*ssa.Function]bool{}, dead: map[*ssa.Function]bool{}}
+		sum: map[*ssa.Function]*fnSummary{}, Imbalance: map[*ssa.Function]string{}, inPkg: map[*ssa.Function]bool{},
+		deferAt: map[deferKey]LockSet{}, dead: map[*ssa.Function]bool{}}
 	for _, rel := range rels {
 		la.Funcs = append(la.Funcs, p.PkgFuncs(rel)...)
 	}
@@ -268,59 +274,73 @@ func (la *LockAnalysis) Held(in ssa.Instruction) LockSet { return la.at[in] }
 func (la *LockAnalysis) Entry(f *ssa.Function) LockSet { return la.entry[f] }
 
 func (la *LockAnalysis) analyse(f *ssa.Function) {
+	if la.deferAt == nil {
+		la.deferAt = map[deferKey]LockSet{}
+	}
 	in := map[*ssa.BasicBlock]LockSet{}
 	in[f.Blocks[0]] = la.entry[f].clone()
 	work := []*ssa.BasicBlock{f.Blocks[0]}
 	out := map[*ssa.BasicBlock]LockSet{}
 	released := map[string]bool{}
+	var notes []string
+	// apply is the transfer function of one (possibly deferred) call.
+	apply := func(c ssa.CallInstruction, cur LockSet) {
+		if path, k, acq, ok := lockOp(c); ok {
+			if path == "" {
+				return
+			}
+			if acq {
+				cur[path] = k
+			} else {
+				if hk, held := cur[path]; !held {
+					released[path] = true
+				} else if hk != k {
+					if n := fmt.Sprintf("%s held as %c is released as %c", path, hk, k); !strings.Contains(strings.Join(notes, ";"), n) {
+						notes = append(notes, n)
+					}
+				}
+				delete(cur, path)
+			}
+			return
+		}
+		// helper summaries (static callees, directly called or deferred closures)
+		if callee := c.Common().StaticCallee(); callee != nil && la.inPkg[callee] {
+			if s := la.sum[callee]; s != nil {
+				m := argMap(callee, c)
+				for p, k := range s.acquired {
+					if q := mapPath(p, m); q != "" {
+						cur[q] = k
+					}
+				}
+				for p := range s.released {
+					if q := mapPath(p, m); q != "" {
+						if _, held := cur[q]; !held {
+							released[q] = true
+						}
+						delete(cur, q)
+					}
+				}
+			}
+		}
+	}
 	for len(work) > 0 {
 		b := work[0]
 		work = work[1:]
 		cur := in[b].clone()
 		for _, ins := range b.Instrs {
 			la.at[ins] = cur.clone()
-			if d, isDefer := ins.(*ssa.Defer); isDefer {
-				// a deferred unlock releases the lock at every exit after this point
-				if path, _, acq, ok := lockOp(d); ok && !acq && path != "" {
-					cur["~defer:"+path] = lockW
-				}
-				continue
-			}
-			c, isCall := ins.(*ssa.Call)
-			if !isCall {
-				continue
-			}
-			if path, k, acq, ok := lockOp(c); ok {
-				if path == "" {
-					continue
-				}
-				if acq {
-					cur[path] = k
-				} else {
-					if _, held := cur[path]; !held {
-						released[path] = true
-					}
-					delete(cur, path)
-				}
-				continue
-			}
-			// helper summaries
-			if callee := c.Call.StaticCallee(); callee != nil && la.inPkg[callee] {
-				if s := la.sum[callee]; s != nil {
-					m := argMap(callee, c)
-					for p, k := range s.acquired {
-						if q := mapPath(p, m); q != "" {
-							cur[q] = k
-						}
-					}
-					for p := range s.released {
-						if q := mapPath(p, m); q != "" {
-							if _, held := cur[q]; !held {
-								released[q] = true
-							}
-							delete(cur, q)
-						}
-					}
+			switch x := ins.(type) {
+			case *ssa.Call:
+				apply(x, cur)
+			case *ssa.RunDefers:
+				// Function exit: the deferred calls run here, last registered first.
+				// (Before this, a `defer mu.Unlock()` was only discounted in the helper
+				// summary, so `if x == nil { return }; mu.Lock(); defer mu.Unlock()`
+				// was reported as unbalanced, and a deferred closure was given the
+				// lock-set of the defer statement instead of the one at the exit.)
+				for _, d := range pendingDefers(f, x) {
+					la.deferAt[deferKey{x, d}] = cur.clone()
+					apply(d, cur)
 				}
 			}
 		}
@@ -353,13 +373,6 @@ func (la *LockAnalysis) analyse(f *ssa.Function) {
 		if !ok {
 			continue // unreachable
 		}
-		o = o.clone()
-		for k := range o {
-			if strings.HasPrefix(k, "~defer:") {
-				delete(o, strings.TrimPrefix(k, "~defer:"))
-				delete(o, k)
-			}
-		}
 		if first {
 			exit, first = o.clone(), false
 		} else {
@@ -369,47 +382,77 @@ func (la *LockAnalysis) analyse(f *ssa.Function) {
 			exit = meet(exit, o)
 		}
 	}
+	// a lock held at entry (by every caller) and no longer at the returns has
+	// been released by f — whether or not the analysis already knows that the
+	// callers hold it (the summary must not change once the entry set is known).
+	if !first {
+		for k := range la.entry[f] {
+			if _, still := exit[k]; !still {
+				released[k] = true
+			}
+		}
+	}
+	if len(notes) > 0 {
+		sort.Strings(notes)
+		if m := la.Imbalance[f]; m != "" {
+			notes = append([]string{m}, notes...)
+		}
+		la.Imbalance[f] = strings.Join(notes, "; ")
+	}
 	s := &fnSummary{acquired: LockSet{}, released: released}
 	for k, v := range exit {
 		if _, atEntry := la.entry[f][k]; !atEntry {
-			// ignore locks released by a deferred unlock
-			if !deferredUnlock(f, k) {
-				s.acquired[k] = v
-			}
+			s.acquired[k] = v // deferred unlocks have already run at RunDefers
 		}
 	}
 	la.sum[f] = s
 }
 
-func deferredUnlock(f *ssa.Function, path string) bool {
+// NetEffect describes the locks f holds at its returns without having held
+// them at entry, and the locks it releases without having acquired them
+// ("" = balanced). Only helpers all of whose callers are analysed (their
+// summary is applied at the call sites) may legitimately have an effect.
+func (la *LockAnalysis) NetEffect(f *ssa.Function) string {
+	s := la.sum[f]
+	if s == nil {
+		return ""
+	}
+	var parts []string
+	for k, v := range s.acquired {
+		parts = append(parts, fmt.Sprintf("returns with %s:%c still held", k, v))
+	}
+	for k := range s.released {
+		parts = append(parts, fmt.Sprintf("releases %s which it did not acquire", k))
+	}
+	sort.Strings(parts)
+	return strings.Join(parts, "; ")
+}
+
+// pendingDefers lists the defer statements of f that are executed on every
+// path to the exit rd (they dominate it), in the order they run there (last
+// registered first). A conditionally registered defer is ignored: the lock it
+// would release is, by the must-hold meet, not held at rd on all paths anyway.
+func pendingDefers(f *ssa.Function, rd *ssa.RunDefers) []*ssa.Defer {
+	var out []*ssa.Defer
 	for _, b := range f.Blocks {
 		for _, in := range b.Instrs {
-			if d, ok := in.(*ssa.Defer); ok {
-				if p, _, acq, ok := lockOp(d); ok && !acq && p == path {
-					return true
-				}
-				// deferred closure that unlocks
-				if mc, ok := d.Call.Value.(*ssa.MakeClosure); ok {
-					for _, bb := range mc.Fn.(*ssa.Function).Blocks {
-						for _, i2 := range bb.Instrs {
-							if c, ok := i2.(*ssa.Call); ok {
-								if p, _, acq, ok := lockOp(c); ok && !acq && p == path {
-									return true
-								}
-							}
-						}
-					}
-				}
+			if d, ok := in.(*ssa.Defer); ok && Dominates(d, rd) {
+				out = append(out, d)
 			}
 		}
 	}
-	return false
+	sort.SliceStable(out, func(i, j int) bool { return out[i] != out[j] && Dominates(out[j], out[i]) })
+	return out
 }
 
 // argMap maps callee parameter names to caller argument paths.
 func argMap(callee *ssa.Function, c ssa.CallInstruction) map[string]string {
 	m := map[string]string{}
 	args := c.Common().Args
+	// a closure names a captured variable as its parent does
+	for _, fv := range callee.FreeVars {
+		m[fv.Name()] = fv.Name()
+	}
 	for i, p := range callee.Params {
 		if i < len(args) {
 			if ap := LockPath(args[i]); ap != "" {
@@ -495,10 +538,18 @@ func (la *LockAnalysis) updateEntries() bool {
 						}
 						add(callee, s)
 					}
-					// closures passed directly as arguments run synchronously with the caller's lock-set
-					for _, a := range x.Call.Args {
+					// closures passed directly as arguments run synchronously with the caller's lock-set,
+					// plus the locks an in-package callee holds where it calls that parameter
+					// (syncx.Guard(lock, fn): fn runs under the caller's lock expression)
+					for i, a := range x.Call.Args {
 						if mc, ok := a.(*ssa.MakeClosure); ok {
-							add(mc.Fn.(*ssa.Function), held.clone())
+							s := held.clone()
+							if callee := x.Call.StaticCallee(); callee != nil && la.inPkg[callee] {
+								for k, v := range la.heldAtParamCalls(callee, i, argMap(callee, x)) {
+									s[k] = v
+								}
+							}
+							add(mc.Fn.(*ssa.Function), s)
 						}
 					}
 					if mc, ok := x.Call.Value.(*ssa.MakeClosure); ok {
@@ -506,7 +557,17 @@ func (la *LockAnalysis) updateEntries() bool {
 					}
 				case *ssa.Defer:
 					if mc, ok := x.Call.Value.(*ssa.MakeClosure); ok {
-						add(mc.Fn.(*ssa.Function), held.clone())
+						// a deferred closure starts with the lock-set of the exits it runs at
+						n := 0
+						for k, s := range la.deferAt {
+							if k.d == x {
+								add(mc.Fn.(*ssa.Function), s.clone())
+								n++
+							}
+						}
+						if n == 0 {
+							add(mc.Fn.(*ssa.Function), LockSet{})
+						}
 					}
 					if callee := x.Call.StaticCallee(); callee != nil && la.inPkg[callee] && callee.Parent() == nil {
 						get(callee).bad = true
@@ -574,6 +635,38 @@ func (la *LockAnalysis) updateEntries() bool {
 		}
 	}
 	return changed
+}
+
+// heldAtParamCalls returns the locks (renamed into the caller's name space
+// through m) that callee holds at every place where it calls its i-th
+// parameter; empty unless the parameter is used for nothing but such calls.
+func (la *LockAnalysis) heldAtParamCalls(callee *ssa.Function, i int, m map[string]string) LockSet {
+	if i >= len(callee.Params) || callee.Params[i].Referrers() == nil {
+		return nil
+	}
+	var set LockSet
+	for _, r := range *callee.Params[i].Referrers() {
+		c, ok := r.(*ssa.Call)
+		if !ok || c.Call.Value != ssa.Value(callee.Params[i]) {
+			return nil // stored, passed on, deferred or started as a goroutine: unknown
+		}
+		h := la.at[c]
+		if h == nil {
+			return nil
+		}
+		if set == nil {
+			set = h.clone()
+		} else {
+			set = meet(set, h)
+		}
+	}
+	out := LockSet{}
+	for p, k := range set {
+		if q := mapPath(p, m); q != "" {
+			out[q] = k
+		}
+	}
+	return out
 }
 
 // mayBeInvoked: f is a method whose name occurs in some interface declared in
